@@ -81,6 +81,8 @@ SEEDS = {
  "C01-m4": ("OPEnv._reset builds the length budget from the generator's max_length instead of the instance's", "instance whose max_length is smaller than the generator's value"),
  "C02-m3": ("process_logits masks infeasible actions after the top-k / top-p filters", "top_k > 0 or 0 < top_p < 1 and no feasible action among the top-k raw logits"),
  "C02-m4": ("OPEnv.get_action_mask does not offer the depot as the very first action", "OP instance whose budget reaches no customer"),
+ "C04-m3": ("MTVRPEnv.get_action_mask drops the return leg from the limit test only if the whole batch has open routes", "open-route instance with a binding distance limit next to a closed-route batch-mate"),
+ "C04-m4": ("MTSPEnv._step takes the fleet size of batch row 0 for every row", "instances with different num_agents, the affected one not in row 0"),
 }
 for sid in sorted(os.listdir(os.path.join(ROOT, "seeded"))):
     d = os.path.join(ROOT, "seeded", sid)
